@@ -469,7 +469,10 @@ fn build_enum_boxed_match(
     }];
 
     // Fix boxed_enum_ptr to account for the `inc_ap` above.
-    assert!(boxed_enum_ptr.apply_known_ap_change(1));
+    if !boxed_enum_ptr.apply_known_ap_change(1) {
+        // The pointer is at the smallest addressable offset from `ap`.
+        return Err(InvocationError::IntegerOverflow);
+    }
 
     // For each branch, we need to create a reference to Box<Variant>.
     // The variant data starts at offset 1 + padding to skip to the variant.
